@@ -9,10 +9,12 @@ from contracts.eam_common import *
 import contracts.setfl as SF
 import contracts.tabeam as TB
 import contracts.eam_tabulation as ET
+import contracts.builders_eam as BE
 
 FUNCTIONS = [(SF.FILE, '_writeSetFLDensityFunctionFinnisSinclair'), (SF.FILE, '_writeDensityFunction'), (SF.FILE, 'writeSetFLFinnisSinclair'),
              (TB.FILE, '_writeDensityFunction'), (TB.FILE, 'writeTABEAMFinnisSinclair'), (TB.FILE, '_tabulateFunction'),
-             (ET.FILE, 'SetFL_FS_EAMTabulation.write'), (ET.FILE, 'TABEAM_FinnisSinclair_EAMTabulation.write')]
+             (ET.FILE, 'SetFL_FS_EAMTabulation.write'), (ET.FILE, 'TABEAM_FinnisSinclair_EAMTabulation.write'),
+             (BE.FILE, 'EAM_Potential_Builder_FS._density_to_potential_form_dict')]
 SPECSEQS = [SF.fvals]
 
 def lemmas():
@@ -39,6 +41,9 @@ def lemmas():
     return out + tables.routing_obligations('C04', ['setfl_fs', 'DL_POLY_EAM_fs', 'excel_eam_fs'])
 
 MUTANTS = [
+    (BE.FILE, 'EAM_Potential_Builder_FS._density_to_potential_form_dict', "add_to[t_species] = pot_func", "add_to[f_species] = pot_func", 'preserve/0'),
+    (BE.FILE, 'EAM_Potential_Builder_FS._density_to_potential_form_dict', "outdict.setdefault(f_species, {})", "outdict.setdefault(t_species, {})", 'preserve/0'),
+    (BE.FILE, 'EAM_Potential_Builder_FS._density_to_potential_form_dict', "if t_species in add_to:", "if f_species in add_to:", 'preserve/0'),
     (SF.FILE, '_writeSetFLDensityFunctionFinnisSinclair', "otherpot.electronDensityFunction[eampot.species]", "eampot.electronDensityFunction[otherpot.species]", 'preserve/0'),
     (TB.FILE, 'writeTABEAMFinnisSinclair', "_writeDensityFunction(speciesA, speciesB, densityFunction", "_writeDensityFunction(speciesB, speciesA, densityFunction", 'preserve/1'),
     (TB.FILE, 'writeTABEAMFinnisSinclair', "for eamPotential in eampots:", "for eamPotential in reversed(eampots):", 'preserve'),
